@@ -169,7 +169,7 @@ def run(ctx):
     small_all = [x for x in open(vec).read().splitlines() if json.loads(x)["class"] == "small"]
     low = [x for x in small_all if 1 <= len(json.loads(x)["shapeW"]) <= 2]
     hi = [x for x in small_all if len(json.loads(x)["shapeW"]) == 3]
-    nhi = 150 if q else 3000
+    nhi = 50 if q else 3000
     if len(hi) > nhi:
         hi = rnd.sample(hi, nhi)
     glines = low + hi
